@@ -95,6 +95,7 @@ struct SavedUnits {
 	uint32_t n1 = 0, n2 = 0;
 	uint32_t nextUnit = 0, prevUnit = 0;
 	uint64_t seed = 1;
+	uint32_t fill = 0, rot = 0; // opaque regions: 0 pseudo-random, 1 the file's own version tag repeated (rotated by rot bytes), 2 zero
 };
 
 inline std::vector<uint8_t> encodeSavedGame(const RMap& m, const SavedUnits& u, std::vector<Field>* fields = nullptr, size_t* consumed = nullptr) {
@@ -109,13 +110,19 @@ inline std::vector<uint8_t> encodeSavedGame(const RMap& m, const SavedUnits& u, 
 	field("unitSize", 4); putU32(b, u.unitSize);
 	field("n1", 4); putU32(b, u.n1);
 	field("n2", 4); putU32(b, u.n2);
-	auto junk = prngBytes(u.seed ^ 0x55, static_cast<size_t>(u.n1) * 512 + static_cast<size_t>(u.n2) * 4);
+	auto opaque = [&](uint64_t seed, size_t n) {
+		if (u.fill == 0) return prngBytes(seed, n);
+		std::vector<uint8_t> v(n, 0);
+		if (u.fill == 1) for (size_t i = 0; i < n; ++i) v[i] = static_cast<uint8_t>(m.tag >> (8 * ((i + u.rot) % 4)));
+		return v;
+	};
+	auto junk = opaque(u.seed ^ 0x55, static_cast<size_t>(u.n1) * 512 + static_cast<size_t>(u.n2) * 4);
 	b.insert(b.end(), junk.begin(), junk.end());
 	field("nextUnit", 4); putU32(b, u.nextUnit);
 	field("prevUnit", 4); putU32(b, u.prevUnit);
-	auto units = prngBytes(u.seed ^ 0x77, 2047 * 120);
+	auto units = opaque(u.seed ^ 0x77, 2047 * 120);
 	b.insert(b.end(), units.begin(), units.end());
-	if (u.firstFree != u.nextFree) { auto fr = prngBytes(u.seed ^ 0x99, 2048 * 4); b.insert(b.end(), fr.begin(), fr.end()); }
+	if (u.firstFree != u.nextFree) { auto fr = opaque(u.seed ^ 0x99, 2048 * 4); b.insert(b.end(), fr.begin(), fr.end()); }
 	field("tag3", 4); putU32(b, m.tag);
 	if (consumed) *consumed = b.size();
 	b.insert(b.end(), m.trailing.begin(), m.trailing.end());
